@@ -51,8 +51,8 @@ func c18DerUint(mag []byte) []byte {
 func c18Key(nLo, nHi int) (*rsa.PublicKey, []byte, []byte) {
 	n := vBytesC("modulus", nLo, nHi)
 	vAssume(n[0] != 0) // the modulus as big.Int.Bytes() gives it: no leading zero byte
-	eb := vBytesC("exponent", 1, 4)
-	vAssume(eb[0] != 0 && (len(eb) < 4 || eb[0] < 0x80))
+	eb := vBytesC("exponent", 1, 5) // every positive exponent below 2^40 (rsa.PublicKey.E is an int)
+	vAssume(eb[0] != 0)
 	e := 0
 	for _, b := range eb {
 		e = e<<8 | int(b)
